@@ -2,8 +2,8 @@ package checks
 
 import (
 	"crypto/sha512"
-	"encoding/binary"
 	"crypto/x509"
+	"encoding/binary"
 	"fmt"
 	"math/big"
 	"os"
